@@ -190,7 +190,7 @@ def items(tier):
     fixs = corpus.seed_ids(("fix",))
     smallest = sorted(sq, key=lambda s: (len(corpus.lines_of(s)), s))[:12]
     out = []
-    seeds = sq if tier == "quick" else sorted(set(sq) | set(fixs) | set(corpus.seed_ids(("cls",))))
+    seeds = sq if tier == "quick" else sorted(set(sq) | set(fixs[::2]) | set(corpus.seed_ids(("cls",))))
     for s in seeds:
         for st in universe.K0:
             out.append(universe.mk(s, (), st, None, kind="gate"))
@@ -241,7 +241,7 @@ def main(tier):
         "phase boundary and --fix_phase N for each N: no rule of a later or skipped phase may be applied and the text must equal the boundary text; skip sets: all of size <= 2 on every seed, "
         "all 128 on the 12 smallest; phase re-assignment and severity flips of each fixture's own rule; a --fix run that changes nothing (all rules warnings, or nothing fixable) must report exactly what the gated check reports; non-trivial = inputs with violations / effective fixes",
         ["ground truth = rule.violations of the rule objects the run used (phase and severity read after configuration)"],
-        extra_cov={"bound": ("S_q (<=25 lines)" if tier == "quick" else "all fix/cls seeds") + " x K0; N in 1..7; skip sets as stated"},
+        extra_cov={"bound": ("S_q (<=25 lines)" if tier == "quick" else "S_q, every second fixture and all classification seeds") + " x K0; N in 1..7; skip sets as stated"},
         reproduce=reproduce,
         technique="explicit enumeration of the phase-gate state space (N x skip set x phase assignment) on the real code against a reference model",
     )
